@@ -19,10 +19,10 @@ TicksExh   == {2, 6}
 TicksDeep  == {1, 2, 3, 6}
 ProbesExh  == {8, 9, 11}
 ProbesFaithful == {7}
-ProbesDeep == {1, 7, 8, 9, 10, 12}
+ProbesDeep == {7, 8, 12}
 NoProbes   == {}
 UidsExh    == {32, 200, 400}
-UidsDeep   == {32, 64, 200, 320, 400}
+UidsDeep   == {32, 200, 320, 400}
 UidsOwn    == {32}
 \* size facts the text of the property relies on (evaluated once by TLC)
 ASSUME ReqSize(PoolMax) = NtpLen + UidField + CookieField + AuthField(0)
